@@ -1069,7 +1069,7 @@ fn check_are_endpoints_securities_compatible(
 
 // Verification hooks: drive the discovery-notification handlers without a
 // running event loop.
-#[cfg(rustdds_verif)]
+#[cfg(all(rustdds_verif, any(not(rustdds_verif_only), rustdds_verif_c11)))]
 impl DPEventLoop {
   pub(crate) fn verif_add_local_reader(&mut self, reader_ing: ReaderIngredients) {
     self.add_local_reader(reader_ing);
